@@ -2042,6 +2042,11 @@ func (d *Document) parseDocument() error {
 	}
 
 done:
+	// 主文档部件中没有 WordprocessingML 的 document 根元素（根元素或命名空间不对）时，
+	// Body 从未被创建，不能继续当作文档使用
+	if d.Body == nil {
+		return WrapError("parse_document", fmt.Errorf("主文档部件中没有有效的 w:document 根元素"))
+	}
 	Infof("解析完成，共 %d 个元素", len(d.Body.Elements))
 	return nil
 }
